@@ -111,7 +111,8 @@ def check(run, prog, tier):
     negs = [(b, i, n) for b, i, n in al.nodes() if n.get("k") == "Asg" and strip(n["L"]).get("f") == "progp" and strip(n["L"]).get("rec") in CREC and const_val(n["R"]) == 0]
     run.need(negs, "negative cache entry store in apply_low")
     for j, (b, i, n) in enumerate(negs):
-        notfound = any((strip(c).get("k") == "Ref" and strip(c).get("n") == "prog" and t is False) for c, t, B in cfgq.guards(al, b.id))
+        # the result of the function lookup: a local program pointer (whatever it is called) that is null on this path
+        notfound = any((strip(c).get("k") == "Ref" and strip(c).get("d") == "local" and "program" in (strip(c).get("t") or "") and t is False) for c, t, B in cfgq.guards(al, b.id))
         run.ob("C07-b", "negative-entry:%d" % j, notfound, "`%s` under `prog == NULL` (lookup found nothing): %s" % (show(n), notfound), al.file, n.get("l"), "apply_low",
                what="apply_low caches 'function not in object' although the lookup found it (only invisible to this caller): later driver calls of that name are refused")
     # field agreement: read on hit path ⊆ written on miss-positive path
